@@ -27,7 +27,8 @@ import gen_tables as G
 
 
 def ltext(s: str) -> str:
-    return "[" + ", ".join(f"Char.ofNat {ord(c)}" for c in s) + "]"
+    """a Python str as a Lean `List Nat` of CODE POINTS (lone surrogates are code points too)"""
+    return "[" + ", ".join(str(ord(c)) for c in s) + "]"
 
 
 def wc_ranges() -> list[tuple[int, int, int]]:
@@ -42,7 +43,7 @@ def wc_ranges() -> list[tuple[int, int, int]]:
     key = h.hexdigest()[:20]
     work = os.path.join(G.ROOT, ".work")
     os.makedirs(work, exist_ok=True)
-    cache = os.path.join(work, f"c10_wcwidth_{key}.json")
+    cache = os.path.join(work, f"c10_wcwidth2_{key}.json")
     if os.path.exists(cache):
         try:
             return [tuple(x) for x in json.load(open(cache))]
@@ -53,7 +54,7 @@ def wc_ranges() -> list[tuple[int, int, int]]:
     cur = 1
     f = wcwidth.wcwidth
     for cp in range(0x110000):
-        w = 1 if 0xD800 <= cp <= 0xDFFF else f(chr(cp))
+        w = f(chr(cp))  # lone surrogates are Python characters too (measured, not assumed)
         if w != cur or (start is not None and cp != prev + 1):
             if start is not None and cur != 1:
                 out.append((start, prev, cur))
@@ -77,13 +78,24 @@ def nonprintable_ranges() -> list[tuple[int, int]]:
     work = os.path.join(G.ROOT, ".work")
     os.makedirs(work, exist_ok=True)
     key = hashlib.sha256((sys.version + unicodedata.unidata_version).encode()).hexdigest()[:20]
-    cache = os.path.join(work, f"c10_isprintable_{key}.json")
+    cache = os.path.join(work, f"c10_isprintable2_{key}.json")
     if os.path.exists(cache):
         try:
             return [tuple(x) for x in json.load(open(cache))]
         except Exception:
             pass
-    out = G.ranges(lambda c: not c.isprintable())
+    out = []
+    start = prev = None
+    for cp in range(0x110000):  # lone surrogates included (they are not printable)
+        if not chr(cp).isprintable():
+            if start is None:
+                start = cp
+            prev = cp
+        elif start is not None:
+            out.append((start, prev))
+            start = None
+    if start is not None:
+        out.append((start, prev))
     tmp = cache + ".tmp%d" % os.getpid()
     with open(tmp, "w") as fh:
         json.dump(out, fh)
@@ -96,9 +108,11 @@ def emitted(call) -> str:
     from prompt_toolkit.data_structures import Size
     from prompt_toolkit.output.vt100 import Vt100_Output
 
-    o = Vt100_Output(io.StringIO(), lambda: Size(rows=24, columns=80), term="xterm")
+    sio = io.StringIO()
+    o = Vt100_Output(sio, lambda: Size(rows=24, columns=80), term="xterm")
     call(o)
-    return "".join(o._buffer)
+    # (ask_for_cpr and bell flush by themselves: what was flushed + what is still buffered)
+    return sio.getvalue() + "".join(o._buffer)
 
 
 def split_amount(f) -> tuple[str, str]:
@@ -118,7 +132,7 @@ def generate() -> None:
     dm = Char.display_mappings
     body = "namespace Ptk.Gen.C10\n\n"
     body += "/-- `Char.display_mappings` in dict order: (key, display string), both as code points -/\n"
-    body += "def displayMappings : List (List Char × List Char) := [\n"
+    body += "def displayMappings : List (List Nat × List Nat) := [\n"
     rows = []
     for k, v in dm.items():
         if not isinstance(k, str) or not isinstance(v, str):
@@ -135,9 +149,9 @@ def generate() -> None:
              "  | [], _ => 1\n"
              "  | (a, b, w) :: rest, n => if n < a then 1 else if n ≤ b then w else wcFind rest n\n\n")
     body += "/-- `wcwidth.wcwidth(c)` of the running interpreter (ranges are sorted, so the scan stops early) -/\n"
-    body += "def wcwidth (c : Char) : Int := wcFind wcRanges c.toNat\n\n"
+    body += "def wcwidth (c : Nat) : Int := wcFind wcRanges c\n\n"
 
-    body += "/-- inclusive code point ranges where `str.isprintable()` is False (surrogates not listed) -/\n"
+    body += "/-- inclusive code point ranges where `str.isprintable()` is False (lone surrogates included) -/\n"
     nps = nonprintable_ranges()
     body += "def nonPrintableRanges : List (Nat × Nat) := [\n  "
     body += ",\n  ".join(", ".join(f"({a}, {b})" for a, b in nps[i:i + 10]) for i in range(0, len(nps), 10))
@@ -146,7 +160,7 @@ def generate() -> None:
              "  | [], _ => false\n"
              "  | (a, b) :: rest, n => if n < a then false else if n ≤ b then true else npFind rest n\n\n")
     body += "/-- `c.isprintable()` of the running interpreter -/\n"
-    body += "def isPrintable (c : Char) : Bool := !npFind nonPrintableRanges c.toNat\n\n"
+    body += "def isPrintable (c : Nat) : Bool := !npFind nonPrintableRanges c\n\n"
 
     from prompt_toolkit.output.vt100 import Vt100_Output as V
 
@@ -168,19 +182,202 @@ def generate() -> None:
     ]
     body += "/-! what the emitter methods of a real `Vt100_Output` hand to `write_raw` -/\n"
     for nm, f in simple:
-        body += f"def {nm} : List Char := {ltext(emitted(f))}\n"
+        body += f"def {nm} : List Nat := {ltext(emitted(f))}\n"
     for nm, f in [("cursorUp", V.cursor_up), ("cursorFwd", V.cursor_forward), ("cursorBack", V.cursor_backward)]:
         pre, suf = split_amount(f)
-        body += f"def {nm}Pre : List Char := {ltext(pre)}\n"
-        body += f"def {nm}Suf : List Char := {ltext(suf)}\n"
+        body += f"def {nm}Pre : List Nat := {ltext(pre)}\n"
+        body += f"def {nm}Suf : List Nat := {ltext(suf)}\n"
     # hide/show are stateful: second call in the same state emits nothing
     def twice(o):
         o.hide_cursor()
         o._buffer.clear()
         o.hide_cursor()
-    body += f"def hideCursorAgain : List Char := {ltext(emitted(twice))}\n"
+    body += f"def hideCursorAgain : List Nat := {ltext(emitted(twice))}\n"
+    body += "\n/-! the other emitters of `Vt100_Output` (mode switches, CPR request, bell, cursor shapes, title) -/\n"
+    from prompt_toolkit.cursor_shapes import CursorShape
+
+    more = [
+        ("eraseScreen", lambda o: o.erase_screen()),
+        ("enterAltScreen", lambda o: o.enter_alternate_screen()),
+        ("quitAltScreen", lambda o: o.quit_alternate_screen()),
+        ("enableMouse", lambda o: o.enable_mouse_support()),
+        ("disableMouse", lambda o: o.disable_mouse_support()),
+        ("enableBracketedPaste", lambda o: o.enable_bracketed_paste()),
+        ("disableBracketedPaste", lambda o: o.disable_bracketed_paste()),
+        ("resetCursorKeyMode", lambda o: o.reset_cursor_key_mode()),
+        ("askCpr", lambda o: o.ask_for_cpr()),
+        ("bell", lambda o: o.bell()),
+        ("cursorDown0", lambda o: o.cursor_down(0)),
+    ]
+    for nm, f in more:
+        body += f"def {nm} : List Nat := {ltext(emitted(f))}\n"
+    pre, suf = split_amount(V.cursor_down)
+    body += f"def cursorDownPre : List Nat := {ltext(pre)}\n"
+    body += f"def cursorDownSuf : List Nat := {ltext(suf)}\n"
+    # cursor_goto(row, column): prefix, separator, suffix around the two decimals
+    g = emitted(lambda o: o.cursor_goto(23, 45))
+    i, j = g.index("23"), g.index("45")
+    gp, gm, gs = g[:i], g[i + 2:j], g[j + 2:]
+    for r, c in ((0, 0), (1, 7), (120, 3000)):
+        if emitted(lambda o: o.cursor_goto(r, c)) != gp + str(r) + gm + str(c) + gs:
+            raise ValueError("cursor_goto is not prefix+row+sep+column+suffix: %r" % g)
+    body += f"def gotoPre : List Nat := {ltext(gp)}\n"
+    body += f"def gotoMid : List Nat := {ltext(gm)}\n"
+    body += f"def gotoSuf : List Nat := {ltext(gs)}\n"
+    # cursor shapes, in enum order; `_NEVER_CHANGE` writes nothing and does not mark the shape as changed
+    shapes = [sh for sh in CursorShape]
+    body += "/-- `set_cursor_shape(shape)` for every member of `CursorShape`, in enum order -/\n"
+    body += "def cursorShapes : List (List Nat) := [" + ", ".join(
+        ltext(emitted(lambda o, sh=sh: o.set_cursor_shape(sh))) for sh in shapes) + "]\n"
+    body += "/-- does `set_cursor_shape(shape)` set `_cursor_shape_changed`? (same order) -/\n"
+
+    def marks(sh):
+        from prompt_toolkit.data_structures import Size
+        o = V(io.StringIO(), lambda: Size(rows=24, columns=80), term="xterm")
+        o.set_cursor_shape(sh)
+        return bool(o._cursor_shape_changed)
+    body += "def cursorShapeMarks : List Bool := [" + ", ".join("true" if marks(sh) else "false" for sh in shapes) + "]\n"
+
+    def reset_after(o):
+        o.set_cursor_shape(CursorShape.BEAM)
+        o._buffer.clear()
+        o.reset_cursor_shape()
+    body += f"def resetCursorShape : List Nat := {ltext(emitted(reset_after))}\n"
+    body += f"def resetCursorShapeUnchanged : List Nat := {ltext(emitted(lambda o: o.reset_cursor_shape()))}\n"
+    # set_title: prefix / suffix around the title, the `term` values for which nothing is written, and the
+    # code points below U+0100 that set_title REMOVES from the title (probed one by one)
+    t = emitted(lambda o: o.set_title("Tt"))
+    k = t.index("Tt")
+    tpre, tsuf = t[:k], t[k + 2:]
+    body += f"def titlePre : List Nat := {ltext(tpre)}\n"
+    body += f"def titleSuf : List Nat := {ltext(tsuf)}\n"
+    removed = []
+    for cp in range(0x100):
+        got = emitted(lambda o: o.set_title("T" + chr(cp) + "t"))
+        if got == tpre + "Tt" + tsuf:
+            removed.append(cp)
+        elif got != tpre + "T" + chr(cp) + "t" + tsuf:
+            raise ValueError("set_title is not prefix + filtered title + suffix: %r" % got)
+    body += "/-- code points < 0x100 that `set_title` removes from the title -/\n"
+    body += "def titleRemoved : List Nat := [" + ", ".join(map(str, removed)) + "]\n"
+
+    def title_for_term(term):
+        from prompt_toolkit.data_structures import Size
+        o = V(io.StringIO(), lambda: Size(rows=24, columns=80), term=term)
+        o.set_title("Tt")
+        return "".join(o._buffer)
+    silent = [tm for tm in ("linux", "eterm-color", "xterm", "dumb", "unknown", "screen", "vt100", "xterm-256color")
+              if title_for_term(tm) == ""]
+    body += "/-- `term` values (of the probed ones) for which `set_title` writes nothing -/\n"
+    body += "def titleSilentTerms : List String := [" + ", ".join(G.lstr(x) for x in silent) + "]\n"
+    body += "/-- probe of `PromptSession._dumb_prompt`: are control characters of the prompt message shown in\n"
+    body += "    caret / hex notation (`true`, proposed fix C10-dumb-prompt-controls) or written as they are (`false`)? -/\n"
+    ok, maps = probe_dumb_prompt()
+    body += f"def dumbPromptMaps : Bool := {'true' if maps else 'false'}\n"
+    body += f"def dumbPromptProbeOk : Bool := {'true' if ok else 'false'}\n"
     body += "\nend Ptk.Gen.C10\n"
     G.write("C10Display.lean", body)
+    generate_codecs()
+
+
+def probe_dumb_prompt() -> tuple[bool, bool]:
+    """(probe worked, control characters are mapped).  Never raises: this generator runs inside every
+    property's check."""
+    try:
+        import asyncio
+
+        from prompt_toolkit import PromptSession
+        from prompt_toolkit.data_structures import Size
+        from prompt_toolkit.input import DummyInput
+        from prompt_toolkit.output.vt100 import Vt100_Output
+
+        async def main():
+            sio = io.StringIO()
+            out = Vt100_Output(sio, lambda: Size(rows=24, columns=80), term="dumb")
+            s = PromptSession(message="\x07\x9b", input=DummyInput(), output=out)
+            out.flush()
+            n = len(sio.getvalue())
+            with s._dumb_prompt(s.message):
+                got = sio.getvalue()[n:]
+            return got
+
+        got = asyncio.run(main())
+        if got == "\x07\x9b":
+            return True, False
+        if got == "^G<9b>":
+            return True, True
+        return False, False
+    except Exception:
+        return False, False
+
+
+# ------------------------------------------------------------------ codecs (the byte level)
+#: single-byte codecs the byte-level theorems are instantiated with (canonical `codecs.lookup(...).name`)
+CHARMAPS = ["ascii", "iso8859-1", "iso8859-15", "cp1252", "cp437", "cp850", "koi8-r", "mac-roman"]
+
+
+def charmap_tables(name: str):
+    """(encode table [(code point, byte)] sorted by code point, decode table [code point | None] * 256)
+    of the RUNNING interpreter's codec, by trying every code point / byte (cached on the interpreter version)"""
+    import sys
+
+    work = os.path.join(G.ROOT, ".work")
+    os.makedirs(work, exist_ok=True)
+    key = hashlib.sha256((sys.version + name).encode()).hexdigest()[:20]
+    cache = os.path.join(work, f"c10_codec_{name}_{key}.json")
+    if os.path.exists(cache):
+        try:
+            e, d = json.load(open(cache))
+            return [tuple(x) for x in e], d
+        except Exception:
+            pass
+    enc = []
+    for cp in range(0x110000):
+        try:
+            b = chr(cp).encode(name)
+        except UnicodeEncodeError:
+            continue
+        if len(b) != 1:
+            raise ValueError(f"{name} is not a single-byte codec: U+{cp:04X} -> {b!r}")
+        enc.append((cp, b[0]))
+    dec = []
+    for b in range(256):
+        try:
+            u = bytes([b]).decode(name)
+            dec.append(ord(u) if len(u) == 1 else None)
+        except UnicodeDecodeError:
+            dec.append(None)
+    tmp = cache + ".tmp%d" % os.getpid()
+    with open(tmp, "w") as fh:
+        json.dump([enc, dec], fh)
+    os.replace(tmp, cache)
+    return enc, dec
+
+
+def lean_ident(name: str) -> str:
+    return "".join(ch if ch.isalnum() else "_" for ch in name)
+
+
+def generate_codecs() -> None:
+    body = "namespace Ptk.Gen.C10\n\n"
+    body += ("/-! single-byte codecs of the running interpreter: `enc_*` = every (code point, byte) the codec\n"
+             "    encodes (sorted by code point), `dec_*` = what each byte 0..255 decodes to (`none` = undefined) -/\n")
+    for nm in CHARMAPS:
+        enc, dec = charmap_tables(nm)
+        idn = lean_ident(nm)
+        body += f"def enc_{idn} : List (Nat × Nat) := [\n  "
+        body += ",\n  ".join(", ".join(f"({a}, {b})" for a, b in enc[i:i + 12]) for i in range(0, len(enc), 12))
+        body += "]\n"
+        body += f"def dec_{idn} : List (Option Nat) := [\n  "
+        body += ",\n  ".join(", ".join("none" if x is None else f"some {x}" for x in dec[i:i + 12])
+                              for i in range(0, len(dec), 12))
+        body += "]\n\n"
+    body += "/-- (canonical codec name, encode table, decode table) -/\n"
+    body += "def charmaps : List (String × List (Nat × Nat) × List (Option Nat)) := [\n  "
+    body += ",\n  ".join(f"({G.lstr(nm)}, enc_{lean_ident(nm)}, dec_{lean_ident(nm)})" for nm in CHARMAPS)
+    body += "]\n"
+    body += "\nend Ptk.Gen.C10\n"
+    G.write("C10Codecs.lean", body)
 
 
 if __name__ == "__main__":
